@@ -80,6 +80,7 @@ fn gen(rng: &mut Rng, _idx: u64, tier: Tier) -> Case {
     }
     let n = if tier == Tier::Thorough && rng.chance(0.05) { rng.range(80, 300) } else { rng.range(3, 40) } as usize;
     let mut lines: Vec<(i64, Vec<u8>, String)> = vec![];
+    let mut last_reply: BTreeMap<usize, Vec<u8>> = BTreeMap::new();
     for _ in 0..n {
         let a = rng.below(n_ac as u64) as usize;
         let ac = &mut acs[a];
@@ -90,6 +91,8 @@ fn gen(rng: &mut Rng, _idx: u64, tier: Tier) -> Case {
         };
         let (f, tag): (Vec<u8>, String) = match rng.below(24) {
             0 | 1 | 2 => {
+                // rarely a transponder that first reported a low capability reports a higher one later (never back)
+                if ac.ca < 4 && rng.chance(0.1) { ac.ca = rng.range(4, 7) as u64; }
                 // an aircraft with CA >= 4 may report different values >= 4 over time (airborne / on ground ...):
                 // "a capability of 4 or more has been recorded" stays unambiguous
                 if ac.ca >= 4 && rng.chance(0.4) { ac.ca = rng.range(4, 7) as u64; }
@@ -139,6 +142,9 @@ fn gen(rng: &mut Rng, _idx: u64, tier: Tier) -> Case {
             }
         };
         let dt = if rng.chance(0.07) { (d + rng.range(0, 2)) * 1_000_000 } else { gen::gap_us(rng, d).min(6_000_000) };
+        // the ground station may ask again and get the very same reply (also after other messages)
+        let f = if rng.chance(0.06) { last_reply.get(&a).cloned().unwrap_or(f) } else { f };
+        if matches!(modes::df_of(&f), 20 | 21) { last_reply.insert(a, f.clone()); }
         let line = gen::line_of(rng, &f, false);
         if rng.chance(0.06) { continue; } // lost
         lines.push((dt, line.clone(), tag.clone()));
@@ -323,7 +329,8 @@ fn check(case: &Case, st: &mut Stats) -> Vec<Violation> {
                     v.push(viol("C10.valid-rejected", i, format!("{:06X}: valid, advertised BDS 5,0 {:014X} (roll {:.1} track {:.1} rate {:.2} deg/s GS {} TAS {}) was not decoded: row shows roll {:?} track {:?} rate {:?} GS {:?} TAS {:?}", a, mb, dd.roll, dd.track, dd.tar, dd.gs, dd.tas, new.roll_angle, new.track, new.track_angle_rate, new.grspeed, new.true_airspeed), w(50, json!({"left_turn": left, "roll_negative": dd.roll < 0.0}))));
                     break 'steps;
                 }
-            } else if ehs::all_status60(mb) && ehs::plausible60(mb) && ehs::clearly_not17(mb) && ehs::clearly_not40(mb) && ehs::clearly_not50(mb) && adv_ok(60) {
+            } else if ehs::all_status60(mb) && ehs::plausible60(mb) && ehs::clearly_not17(mb) && ehs::clearly_not40(mb) && (ehs::clearly_not50(mb) || ehs::clearly_implausible50(mb)) && adv_ok(60) {
+                if !ehs::clearly_not50(mb) { st.probe("bds60_with_implausible_50_reading"); }
                 let dd = ehs::decode60(mb);
                 st.probe(if dd.baro_rate < 0 { "bds60_descent_offered" } else { "bds60_climb_offered" });
                 let ok = new.heading.map(|x| ehs::int_matches(x as i64, dd.hdg) || (x == 360 && dd.hdg >= 359.0)).unwrap_or(false)
